@@ -93,6 +93,7 @@ type OpRes struct {
 	BytesLeft   int // wrap=bytes: unread bytes
 	BufChanged  bool
 	Is          []bool
+	IsNames     []string
 	Arr         []string
 	Skipped     bool
 	ParentObs   lib.Res
@@ -127,6 +128,9 @@ type World struct {
 	slots   []slot
 	RealDir string
 	PreExts []*model.Ext
+	// PreSkipped: preliminary Extend calls whose parent Lookup returned nil.
+	// They run sequentially, after their parent was registered, so each one is a mismatch.
+	PreSkipped []*model.Ext
 }
 
 const canary = 0xC3
@@ -310,7 +314,8 @@ func (w *World) RunPre() error {
 			return fmt.Errorf("pre op %d is not an extend", i)
 		}
 		if !w.register(op.Ext, nil) {
-			return fmt.Errorf("pre op %d: parent %q not found", i, op.Ext.Parent)
+			w.PreSkipped = append(w.PreSkipped, op.Ext)
+			continue
 		}
 		w.PreExts = append(w.PreExts, op.Ext)
 	}
@@ -437,6 +442,7 @@ func (w *World) Exec(t *core.Task, ti, oi int) {
 		res.R = lib.Observe(m)
 		if m != nil && op.Ext != nil {
 			for _, nm := range op.Ext.Names() {
+				res.IsNames = append(res.IsNames, nm)
 				res.Is = append(res.Is, m.Is(nm))
 			}
 		}
@@ -575,6 +581,15 @@ func firstLines(s string, n int) string {
 		out = append(out, s[i])
 	}
 	return string(out)
+}
+
+// PreFailures reports preliminary Extend calls that could not find their parent.
+func PreFailures(rr *RunResult) []Failure {
+	var fs []Failure
+	for _, e := range rr.W.PreSkipped {
+		fs = append(fs, Failure{"mismatch", fmt.Sprintf("Lookup(%q) returned nil although the format carrying that name had been registered (sequentially, before the tasks started); extension #%d could not be attached", e.Parent, e.ID)})
+	}
+	return fs
 }
 
 // BufferFailures checks the input buffers the caller lent to the library.
